@@ -103,6 +103,7 @@ type State struct {
 	open     *OpenState
 	ghost    map[string]*Term
 	path     []string // decisions (for witnesses)
+	blockedAt string
 	inArm    int // > 0 while executing one arm of a diamond that is being merged
 	dead     bool
 	finished bool
